@@ -1,0 +1,111 @@
+//! Verification hooks, compiled only with `--cfg csl_verif`.
+//!
+//! `rand` mirrors the three names the coin-selection code uses from the `rand`
+//! crate (`thread_rng()`, `rngs::ThreadRng`, `Rng::gen_range`) on top of a
+//! thread-local draw script, so that a conformance harness can replay or
+//! enumerate every outcome of the random strategies. When no script or seed is
+//! installed the draws are delegated to the real thread RNG.
+
+use std::cell::RefCell;
+
+#[derive(Clone, Debug)]
+enum Mode {
+    Passthrough,
+    Script(Vec<usize>, usize),
+    Seeded(u64),
+}
+
+struct State {
+    mode: Mode,
+    // (n, k, scripted) for every draw `gen_range(0..n) = k`
+    log: Vec<(usize, usize, bool)>,
+}
+
+thread_local! {
+    static STATE: RefCell<State> = RefCell::new(State { mode: Mode::Passthrough, log: Vec::new() });
+}
+
+/// Install a draw script: the i-th call of `gen_range(0..n)` answers `script[i] % n`.
+/// Calls beyond the script answer 0 and are logged as unscripted.
+pub fn set_script(script: Vec<usize>) {
+    STATE.with(|s| {
+        let mut s = s.borrow_mut();
+        s.mode = Mode::Script(script, 0);
+        s.log.clear();
+    });
+}
+
+/// Deterministic pseudo-random draws from a seed (splitmix64).
+pub fn set_seed(seed: u64) {
+    STATE.with(|s| {
+        let mut s = s.borrow_mut();
+        s.mode = Mode::Seeded(seed);
+        s.log.clear();
+    });
+}
+
+/// Back to the real thread RNG.
+pub fn clear() {
+    STATE.with(|s| {
+        let mut s = s.borrow_mut();
+        s.mode = Mode::Passthrough;
+        s.log.clear();
+    });
+}
+
+/// The draws made since the last `set_*` / `take_log`: (n, k, scripted).
+pub fn take_log() -> Vec<(usize, usize, bool)> {
+    STATE.with(|s| std::mem::take(&mut s.borrow_mut().log))
+}
+
+fn draw(n: usize) -> usize {
+    STATE.with(|s| {
+        let mut s = s.borrow_mut();
+        let (k, scripted) = match &mut s.mode {
+            Mode::Passthrough => {
+                use ::rand::Rng as _;
+                (::rand::thread_rng().gen_range(0..n), false)
+            }
+            Mode::Script(script, pos) => {
+                if *pos < script.len() {
+                    let k = script[*pos] % n;
+                    *pos += 1;
+                    (k, true)
+                } else {
+                    (0, false)
+                }
+            }
+            Mode::Seeded(state) => {
+                *state = state.wrapping_add(0x9E37_79B9_7F4A_7C15);
+                let mut z = *state;
+                z = (z ^ (z >> 30)).wrapping_mul(0xBF58_476D_1CE4_E5B9);
+                z = (z ^ (z >> 27)).wrapping_mul(0x94D0_49BB_1331_11EB);
+                z ^= z >> 31;
+                ((z % (n as u64)) as usize, true)
+            }
+        };
+        s.log.push((n, k, scripted));
+        k
+    })
+}
+
+pub mod rand {
+    pub mod rngs {
+        pub struct ThreadRng;
+    }
+
+    pub fn thread_rng() -> rngs::ThreadRng {
+        rngs::ThreadRng
+    }
+
+    pub trait Rng {
+        fn gen_range(&mut self, range: std::ops::Range<usize>) -> usize;
+    }
+
+    impl Rng for rngs::ThreadRng {
+        fn gen_range(&mut self, range: std::ops::Range<usize>) -> usize {
+            assert!(range.start == 0 && range.end > 0, "cannot sample empty range");
+            super::draw(range.end)
+        }
+    }
+}
